@@ -35,6 +35,7 @@ type HarnessSpec struct {
 	Quick         int // shards in quick tier (0 = not run in quick)
 	Thorough      int
 	Steps         int64
+	PathSteps     int
 	Timeout       int      // seconds per shard
 	Models        []string // groups of package-scoped models enabled for this harness (nil = all)
 	NoMerge       bool
@@ -263,7 +264,7 @@ func loadEngine(repo, verifDir string, tier int, verbose bool) *Engine {
 					if !strings.HasPrefix(c.Text, "//verif:harness") {
 						continue
 					}
-					h := &HarnessSpec{Name: fd.Name.Name, Pkg: pk.PkgPath, Fn: fn, Quick: 1, Thorough: 1, Steps: 50_000_000, Timeout: 600}
+					h := &HarnessSpec{Name: fd.Name.Name, Pkg: pk.PkgPath, Fn: fn, Quick: 1, Thorough: 1, Steps: 50_000_000, PathSteps: 6_000_000, Timeout: 600}
 					for _, m := range directiveRe.FindAllStringSubmatch(c.Text, -1) {
 						switch m[1] {
 						case "prop":
@@ -274,6 +275,8 @@ func loadEngine(repo, verifDir string, tier int, verbose bool) *Engine {
 							h.Thorough, _ = strconv.Atoi(m[2])
 						case "steps":
 							h.Steps, _ = strconv.ParseInt(m[2], 10, 64)
+						case "pathsteps":
+							h.PathSteps, _ = strconv.Atoi(m[2])
 						case "timeout":
 							h.Timeout, _ = strconv.Atoi(m[2])
 						case "nomerge":
